@@ -1,5 +1,6 @@
 From Coq Require Extraction ExtrOcamlBasic.
-From Rpgp Require Import Base.Octets Base.Res Aead.Seipd2.
+From Rpgp Require Import Base.Octets Base.Res Aead.Seipd2 Sym.Cfb.
 Extraction Language OCaml.
 Separate Extraction Byte.to_N Byte.of_N
-  Seipd2.seipd2_enc Seipd2.seipd2_dec Seipd2.seipd2_stream_dec Seipd2.derive Seipd2.info_of Seipd2.chunk_len.
+  Seipd2.seipd2_enc Seipd2.seipd2_dec Seipd2.seipd2_stream_dec Seipd2.derive Seipd2.info_of Seipd2.chunk_len
+  Cfb.cfb_enc Cfb.cfb_dec Cfb.seipd1_enc Cfb.seipd1_dec Cfb.seipd1_checkfirst Cfb.seipd1_streaming.
